@@ -49,7 +49,7 @@ func snapWorld(stakes []int64) *stakeWorld {
 		return w
 	}
 	w := newStakeWorld(env.E1Options{Seed: drv.Seed(), Chains: chainNames, NoActive: true, Powers: stakes,
-		ValAddrs: orderedAddrs(len(stakes), drv.Seed())}, snapMaxVals, snapUnbond)
+		ValAddrs: orderedAddrs(len(stakes), drv.Seed())}, snapMaxVals, snapUnbond, 0)
 	// several worlds live in this process: the skyway keeper of the newest one is the (package-global) subscriber of
 	// the chain-activation event and would be run on another world's stores; its reaction is not part of this subsystem
 	eventbus.EVMActivatedChain().Unsubscribe("skyway-keeper")
